@@ -127,6 +127,8 @@ type Result struct {
 	Policy     int
 	Delta      time.Duration
 	Log        []string // harness notes
+	Races      []RaceReport
+	KindCounts [8]int // tape draws per kind (diagnostics)
 }
 
 // Sim is the state of the active run.
@@ -137,7 +139,8 @@ type Sim struct {
 	start   time.Time
 	simTime time.Duration
 
-	tasks   []*Task
+	tasks   []*Task // every task ever made in this run, by id
+	live    []*Task // the unfinished ones, in id order (what the scheduler loop scans)
 	nAlive  int
 	over    bool
 	overWhy string
@@ -185,6 +188,8 @@ type Sim struct {
 
 	// fault plan for the os shims
 	FS *FaultFS
+
+	races []RaceReport
 }
 
 var cur *Sim // the active simulation (nil: pass-through)
@@ -270,6 +275,15 @@ func setCur(s *Sim) { cur = s }
 func Current() *Sim { return cur }
 
 const traceCap = 1 << 17
+
+var gTrTime []int64 // per step: fake time since the start of the run
+
+// task tables are process-global and reused (one run at a time): allocation-free spawning
+const maxTasks = 1 << 16
+
+var gTasks, gLive []*Task
+
+var gTrReady []uint64 // per step: number of ready tasks (low 16 bits) and a hash of their ids
 const pairCap = 1 << 16
 
 // big per-run buffers are process-global and reused: goroutines leaked by finished runs
@@ -298,7 +312,16 @@ func Run(t *testing.T, cfg Config, body func()) (res *Result) {
 	} else {
 		s.tape = NewTape(cfg.Seed, cfg.Run)
 	}
-	s.tasks = make([]*Task, 0, 4096)
+	if cap(gTasks) == 0 {
+		gTasks = make([]*Task, 0, maxTasks)
+		gLive = make([]*Task, 0, maxTasks)
+	}
+	for i := range gTasks[:cap(gTasks)] {
+		gTasks[:cap(gTasks)][i] = nil
+		gLive[:cap(gLive)][i] = nil
+	}
+	s.tasks = gTasks[:0]
+	s.live = gLive[:0]
 	s.faults = map[string]int{}
 	s.probes = map[string]int{}
 	s.regionOwner = map[string]int{}
@@ -307,6 +330,8 @@ func Run(t *testing.T, cfg Config, body func()) (res *Result) {
 		gTrTask = make([]int32, traceCap)
 		gTrSite = make([]string, traceCap)
 		gTrKind = make([]int8, traceCap)
+		gTrReady = make([]uint64, traceCap)
+		gTrTime = make([]int64, traceCap)
 	}
 	for i := range gPairs {
 		gPairs[i] = 0
@@ -316,6 +341,7 @@ func Run(t *testing.T, cfg Config, body func()) (res *Result) {
 	s.lastPick = -1
 	s.schedHash = 14695981039346656037
 	clearGoidTab()
+	timerSkewCounter = 0
 
 	func() {
 		defer func() {
@@ -357,7 +383,11 @@ func Run(t *testing.T, cfg Config, body func()) (res *Result) {
 			s.loop()
 			s.over = true
 			s.census()
+			// race reports of the run proper; what the detector says while killed tasks unwind
+			// (their deferred calls run unserialised) is an artefact of the tear-down
+			s.races = CollectRaceReports()
 			s.killParked()
+			CollectRaceReports()
 			setCur(nil)
 			// Tasks blocked for ever on application channels are abandoned; the bubble
 			// then ends with the recoverable "blocked goroutines remain" panic.
@@ -370,9 +400,14 @@ func Run(t *testing.T, cfg Config, body func()) (res *Result) {
 		Violation: s.violation, Crash: s.crash, Deadlock: s.deadlock,
 		Budget: s.budget || s.tape.Overflow, SchedHash: s.schedHash,
 		Faults: s.faults, Probes: s.probes, TasksMade: len(s.tasks),
-		Policy: s.policy, Delta: s.delta, Log: s.log,
+		Policy: s.policy, Delta: s.delta, Log: s.log, Races: s.races,
 	}
 	res.SimTime = s.simTime
+	for _, k := range s.tape.Kinds {
+		if int(k) < len(res.KindCounts) {
+			res.KindCounts[k]++
+		}
+	}
 	res.PairSet = make(map[uint64]struct{}, s.nPairs)
 	for _, p := range s.pairs {
 		if p != 0 {
@@ -429,7 +464,7 @@ func (s *Sim) renderTrace() []string {
 		if id := int(s.trTask[i]); id >= 0 && id < len(s.tasks) {
 			cls = s.tasks[id].Class
 		}
-		out = append(out, fmt.Sprintf("%d: task %d (%s) resumes from %s at %s", i, s.trTask[i], cls, kind[s.trKind[i]], s.trSite[i]))
+		out = append(out, fmt.Sprintf("%d: task %d (%s) resumes from %s at %s [ready %d #%x t=%d]", i, s.trTask[i], cls, kind[s.trKind[i]], s.trSite[i], gTrReady[i]&0xffff, gTrReady[i]>>16, gTrTime[i]))
 	}
 	return out
 }
@@ -451,9 +486,18 @@ func (s *Sim) spawn(site string, harness bool, fn func()) *Task {
 		tk.prio = s.tape.draw(KPolicy, 1000)
 	}
 	if len(s.tasks) == cap(s.tasks) {
-		panic("simrt: too many tasks in one run")
+		// out of room: the run ends as a budget overrun (never a verdict); the spawner stops here
+		s.budget = true
+		s.over = true
+		s.overWhy = "too many tasks"
+		select {
+		case s.wake <- struct{}{}:
+		default:
+		}
+		<-s.never
 	}
 	s.tasks = append(s.tasks, tk) // never grows (preallocated): growslice is race-instrumented
+	s.live = append(s.live, tk)
 	s.nAlive++
 	go taskMain(s, tk, fn)
 	raceDisable()
@@ -574,7 +618,16 @@ func (s *Sim) loop() {
 		}
 		n := 0
 		anyLockWait := false
-		for _, tk := range s.tasks {
+		// drop finished tasks from the scan list (stable, in place)
+		w := 0
+		for _, tk := range s.live {
+			if tk.state != stDone {
+				s.live[w] = tk
+				w++
+			}
+		}
+		s.live = s.live[:w]
+		for _, tk := range s.live {
 			if tk.state != stParked {
 				continue
 			}
@@ -622,6 +675,14 @@ func (s *Sim) loop() {
 		}
 		pick := s.choose(ready[:n])
 		tk := ready[pick]
+		if s.nTr < traceCap {
+			h := uint64(0)
+			for i := 0; i < n; i++ {
+				h = h*1000003 + uint64(ready[i].ID+1)
+			}
+			gTrReady[s.nTr] = h<<16 | uint64(n&0xffff)
+			gTrTime[s.nTr] = int64(time.Since(s.start))
+		}
 		s.record(tk)
 		s.steps++
 		tk.state = stRunning
@@ -639,7 +700,7 @@ func (s *Sim) loop() {
 
 //go:norace
 func (s *Sim) anyStalledParked() bool {
-	for _, tk := range s.tasks {
+	for _, tk := range s.live {
 		if tk.state != stParked {
 			continue
 		}
